@@ -186,7 +186,7 @@ def decide(formulas, *, timeout_s=60, nonlinear=False, ackermann=None, second=Fa
         reason = s.reason_unknown()
     res = Result(status, model, dt, name, ack, reason)
     if second and status in ("sat", "unsat"):
-        st2, t2 = second_opinion(s, timeout_s)
+        st2, t2 = second_opinion(s, timeout_s, nonlinear)
         res.second = (st2, t2)
         if st2 in ("sat", "unsat") and st2 != status:
             res.status = "disagree"
@@ -194,8 +194,11 @@ def decide(formulas, *, timeout_s=60, nonlinear=False, ackermann=None, second=Fa
     return res
 
 
-def second_opinion(solver, timeout_s):
+def second_opinion(solver, timeout_s, nonlinear=False):
     txt = solver.to_smt2()
+    if nonlinear:
+        # the dump does not record the tactic: ask the second solver for the same decision procedure
+        txt = txt.replace("(check-sat)", "(check-sat-using qfnra-nlsat)")
     fd, path = tempfile.mkstemp(suffix=".smt2", dir=os.environ.get("VERIF_SCRATCH", tempfile.gettempdir()))
     try:
         with os.fdopen(fd, "w") as f:
